@@ -247,9 +247,18 @@ def ob_files_concrete():
     import tempfile
 
     def check(i, f, b, e):
+        for int_bounds in (False, True):  # Textgrid(0, 5): bounds given as ints
+            r = check1(i, f, b, e, int_bounds)
+            if r is not True:
+                return r + (" (textgrid bounds given as ints)" if int_bounds else "")
+        return True
+
+    def check1(i, f, b, e, int_bounds):
         x = SHAPES[i]
         fmt = IO.FORMATS[f]
         lo, hi = 0.0, max(4.0, x * 2 + 1)
+        if int_bounds:
+            lo, hi = 0, int(hi) + 1
         tg = Textgrid(lo, hi)
         a = x
         bnd = x + 1.0 if x + 1.0 > x else x * 2
